@@ -170,6 +170,10 @@ func kidFor(tag string, r *rand.Rand) (string, bool) {
 		return gen.YSSHCAKeyID(gen.KeyIDSpec{Touch: 0, TransID: tid, Prins: []string{"u"}}), true
 	case "regular":
 		return gen.YSSHCAKeyID(gen.KeyIDSpec{Touch: 1, TransID: tid, Prins: []string{"u"}}), true
+	case "null-prins": // what the codec itself emits for a KeyID without principals
+		return gen.YSSHCAKeyID(gen.KeyIDSpec{HW: true, Touch: 1, TransID: tid}), true
+	case "empty-prins":
+		return gen.YSSHCAKeyID(gen.KeyIDSpec{Touch: 1, TransID: tid, Prins: []string{}}), true
 	case "near-missing-field":
 		s := gen.YSSHCAKeyID(gen.KeyIDSpec{HW: true, Touch: 1, TransID: tid, Prins: []string{"u"}})
 		return strings.Replace(s, `"isNonce":false,`, ``, 1), false
@@ -208,7 +212,7 @@ func kidFor(tag string, r *rand.Rand) (string, bool) {
 }
 
 // AllKIDs is the full list of KeyID tags.
-var AllKIDs = []string{"touch", "touchless", "firefighter", "inagent", "nonce", "headless", "unknown-type", "regular", "near-missing-field", "near-ver2", "near-ver0", "near-conflict", "near-conflict-nonce", "near-conflict-headless-nonce", "near-conflict-headless-ff", "near-conflict-headless-touch", "near-conflict-nonce-touch", "near-trailing-text", "near-two-objects", "near-leading-text", "near-case", "empty", "text"}
+var AllKIDs = []string{"touch", "touchless", "firefighter", "inagent", "nonce", "headless", "unknown-type", "regular", "null-prins", "empty-prins", "near-missing-field", "near-ver2", "near-ver0", "near-conflict", "near-conflict-nonce", "near-conflict-headless-nonce", "near-conflict-headless-ff", "near-conflict-headless-touch", "near-conflict-nonce-touch", "near-trailing-text", "near-two-objects", "near-leading-text", "near-case", "empty", "text"}
 
 // NewMaterial draws keys and certificates.
 func NewMaterial(r *rand.Rand, cfg Config) *Material {
@@ -218,6 +222,12 @@ func NewMaterial(r *rand.Rand, cfg Config) *Material {
 	nk := 3 + r.Intn(3)
 	for i := 0; i < nk; i++ {
 		mt.Keys = append(mt.Keys, pool[perm[i]])
+	}
+	// one rig in three also has a security-key backed identity (sk-ssh-ed25519@openssh.com): it can
+	// only enter the underlying agent directly, and its certificates have an sk certificate type
+	if r.Intn(3) == 0 {
+		sk := gen.SKPool()
+		mt.Keys = append(mt.Keys, sk[r.Intn(len(sk))])
 	}
 	now := time.Now().Unix()
 	nc := 4 + r.Intn(6)
@@ -263,6 +273,11 @@ func NewMaterial(r *rand.Rand, cfg Config) *Material {
 func New(r *rand.Rand, cfg Config, st *Stats) (*Engine, error) {
 	e := &Engine{Cfg: cfg, R: r, St: st, m: map[string]*mcert{}}
 	e.Mat = NewMaterial(r, cfg)
+	for _, k := range e.Mat.Keys {
+		if k.SK && st != nil {
+			st.Ops["rig-with-security-key-identity"]++
+		}
+	}
 	e.Ag = wire.New()
 	sock, err := e.Ag.Listen()
 	if err != nil {
@@ -939,6 +954,9 @@ func (e *Engine) opSign() {
 			e.disc([]string{"C10"}, "signature-does-not-verify", fmt.Sprintf("Sign(%s): %v", e.describe(blob), verr))
 		} else {
 			e.St.SignsVerified++
+			if strings.HasPrefix(key.Type(), "sk-") {
+				e.St.Ops["security-key-signature-verified"]++
+			}
 		}
 	}
 	// what reached the underlying agent
@@ -1037,9 +1055,16 @@ func (e *Engine) opAdd() {
 	blob := string(e.Mat.Keys[k].Pub.Marshal())
 	if e.R.Intn(2) == 0 {
 		c := e.Mat.Certs[e.R.Intn(len(e.Mat.Certs))]
+		k = c.KeyIdx
 		ak.PrivateKey = e.Mat.Keys[c.KeyIdx].Priv
 		ak.Certificate = c.Cert
 		blob = c.Blob
+	}
+	if e.Mat.Keys[k].SK {
+		// a client cannot put a security-key identity into an add-identity request with its private half;
+		// such identities enter the underlying agent directly
+		e.directAdd()
+		return
 	}
 	ub := e.snapshotU()
 	err := e.Shim.Add(ak)
